@@ -29,6 +29,16 @@ CODEC_TRUSTED = [
 ]
 
 PROPS = {
+    "C06": dict(
+        units=["preproc"],
+        claim="Term::evaluate, Expression::evaluate, Conditional::evaluate and process_nodes (slicec/src/parsers/preprocessor/grammar.rs, "
+              "real text) are verified against the conditional-compilation semantics written from the property.",
+        trusted=["axiom_str_key / axiom_str_key_removed: String/str Borrow+Hash+Eq agreement (std)",
+                 "nesting_facts: the preprocessor AST is a finite tree (uninterpreted height with the two facts every finite tree satisfies)",
+                 "preprocessor lexer (which lines are directives), LALRPOP-generated parser and its error recovery, Slice lexer restart at the block's start location"],
+        not_claimed=["which lines are directives / malformed-directive recovery (lexer + generated parser)", "location preservation of surviving text (lexer cursor arithmetic is under C09's unit)",
+                     "cross-file isolation is by ownership typing (symbols.clone() per file) - noted, no obligation"],
+    ),
     "C10": dict(
         units=["codec_wire", "wire_lemmas"],
         kani_quick=K_VARINT + K_FIXED,
@@ -66,4 +76,35 @@ PROPS = {
         assumptions=["machine fact axiom: a slice's length fits in usize"],
         not_claimed=["VecOutputTarget beyond the Kani bound", "allocator behaviour"],
     ),
+}
+
+
+# ---- properties not claimed (kept current; one-line reasons appear in MANIFEST.not_applicable) ----
+NOT_APPLICABLE = {
+    "C02": "Source-to-AST fidelity is a relation between a token stream and the tree built by ~10k lines of LALRPOP-generated LR tables plus action code threading raw OwnedPtr/WeakPtr and closures; no function within Verus's or Kani's reach carries it, and layout-independence is a relational (two-run) property.",
+    "C05": "Cycle detection is a DFS over &dyn CycleCandidate trait objects, HashSet<BTreeSet<String>> and the raw-pointer AST; alias and inheritance closures recurse through iterator closures - unsupported by Verus, and string-keyed graphs are beyond Kani.",
+    "C13": "The whole decision lives in Diagnostics::into_updated (mut self, for..in &mut, nested fns over iter().any/filter_map, dyn Entity lookups), none of which this Verus accepts; 'adding a suppression changes nothing else' is a two-run relation.",
+    "C14": "Emission is terminal/serde I/O (console, serde_json::Serializer, writeln!); byte-level output format is not expressible as a contract over code the verifiers can see (totals/exit-status agreement is covered under C07).",
+    "C15": "Reproducibility and order-independence are hyperproperties relating two executions of the whole pipeline (and a process's hash seeds); contracts here speak about one call.",
+    "C16": "Comment text handling is sanitize_message_lines/construct_section_message (closures, flat_map, byte-offset replace_range on String) and a LALRPOP grammar; no string-level reasoning is available in Verus for it and Kani cannot carry symbolic strings.",
+    "C18": "Generator supervision is process spawning, pipes, exit statuses and the file system (std::process, std::fs); nothing there is within a deductive verifier's reach.",
+}
+
+MANIFEST_TEXT = {
+    "C06": dict(
+        level="Proof (Verus, unbounded): Term/Expression/Conditional::evaluate and process_nodes - the repository's text, extracted on every run - are verified against a semantics written from the property (expr_val / select / run_nodes): first true branch wins and later #elif conditions are not consulted; #define/#undef act only when reached, left to right. Claim is the EVALUATION semantics; which lines are directives (lexer state machine, LALRPOP tables) and location bookkeeping are trusted.",
+        design_ref="DESIGN.md section 7, C06", technique="Verus contracts on extracted real functions vs. spec functions; loop invariants; assumed finite-nesting measure",
+        note="Assumed: String/str Borrow+Hash+Eq agreement (2 axioms), finite nesting height of the preprocessor AST (2 axioms), vstd HashSet/Vec specs. Trusted: preprocessor lexer, generated parser, Slice lexer cursor restart."),
+    "C10": dict(
+        level="Proof (Verus, unbounded in value/length/nesting + Kani complete proofs of bit-level leaves): every EncodeInto/DecodeFrom impl for bool, fixed-width numbers, floats, var-ints, sizes, strings, sequences (and dictionary DECODING) is under contract against specs/wire.rs; varint encode/decode bodies are discharged by loop-free Kani harnesses over the full i64/u64/usize domain and every byte string of length 0..=9; the Kani reference is proved equal to the Verus spec. Dictionary ENCODING is only a labelled bounded Kani stand-in.",
+        design_ref="DESIGN.md section 7, C10", technique="Verus function contracts + trait-level contracts; Kani harness-level contracts (full domain)",
+        note="Assumed std contracts: to_le_bytes/from_le_bytes layout (cross-checked by Kani on every value), integer widening/narrowing, Vec/String/HashMap allocation API, vstd utf8/map specs. Spec-level round-trip lemma for var-ints is Kani's (real code, full domain), not yet a Verus lemma."),
+    "C11": dict(
+        level="Proof (Verus, all byte strings): every decode function carries only the source's representation invariant as precondition; proved: data unchanged, cursor monotone and inside the buffer (every index/copy obligation = the safety condition of the unsafe call), no reachable panic/overflow, strict bool/UTF-8/range/duplicate-key rejection, termination of skip_tagged_fields, String allocation bounded by remaining input, all Display impls panic-free. Vec/HashMap announced-size reservation = 2 known findings (listed, concrete inputs).",
+        design_ref="DESIGN.md section 7, C11 and section 8", technique="Verus contracts with no input precondition; ghost resource assertions; Kani complete harnesses on symbolic buffers; replay binary on the real crate",
+        note="Three genuine defects were repaired by fix: commits (duplicate-key todo!, Display todo!, String allocation); two recorded in known_findings.txt. Trusted: allocator behaviour, std collection internals, process-I/O caller of the decoders."),
+    "C12": dict(
+        level="Proof (Verus, unbounded capacity and operand length): all functions of buffer/slice.rs against an append-only-log view with whole-buffer frames: success <=> fits; success appends / claims exactly the next N bytes; failure changes neither contents nor cursor; reservation writes fill front to back and touch nothing outside; reads return data[pos..pos+n], peeks do not consume. VecOutputTarget (unsafe over MaybeUninit) is a labelled bounded Kani stand-in (thorough tier) and not counted as proved.",
+        design_ref="DESIGN.md section 7, C12", technique="Verus data-structure contracts (view + wf + whole-view postconditions) on extracted real code; R5/R6 checked-twin rewrites",
+        note="Assumed: shim_copy_nonoverlapping / shim_as_array (precondition = safety condition), Range::clone, slice length fits usize. Per-operation contracts are inductive over histories; the explicit history lemma is not written."),
 }
